@@ -352,8 +352,12 @@ Inductive op : Type :=
 | OSlashW (d : Z) (slash : dec)              (* loop body of the slash hook (unreachable today) *)
 | OEndBlock (now : Z)
 | OUpsertHook (stake_enabled : bool)
-| OWithdraw (ids : list Z) (target : Z)      (* ProposalBasketWithdrawSurplus: basket ids as listed, receiver *)
-| OCreate (new : basket).                    (* ProposalCreateBasket *)
+| OWithdraw (ids : list Z) (target : Z) (rewards : coins)
+      (* ProposalBasketWithdrawSurplus: basket ids as listed, receiver; [rewards] = staking rewards
+         pending for the basket module account in x/multistaking (known to the harness), which the
+         handler claims into the module account and forwards to the receiver *)
+| OCreate (new : basket)                     (* ProposalCreateBasket *)
+| OGenesis.                                  (* ExportGenesis, fresh store, InitGenesis *)
 
 (* ---------------------------------------------------------------- proposals over several baskets *)
 Fixpoint upd_nth (l : list basket) (n : nat) (b : basket) : list basket :=
@@ -399,6 +403,17 @@ Definition create (v : variant) (s : state) (new : basket) : outcome state :=
   Ok (mkS (s_bk s) (s_bal s) (s_supply s) (s_hm s) (s_hb s) (s_hs s) (s_sibs s ++ [set_surplus (set_tokens (if v_create_zero v then set_amount new 0 else new) ts) []]))
   end.
 
+(* Genesis round trip of an action history: the exported record carries whole seconds only, and the
+   import SETS (does not add) the amount under the key of that second, in the order of the export
+   (ascending time): entries of one second collapse into the last of them *)
+Fixpoint set_entry (h : history) (t x : Z) : history :=
+  match h with
+  | [] => [(t, x)]
+  | (t', y) :: r => if t' =? t then (t', x) :: r else (t', y) :: set_entry r t x
+  end.
+Definition genesis_hist (h : history) : history :=
+  fold_left (fun acc e => set_entry acc (fst e / NS * NS) (snd e)) h [].
+
 Definition with_bk (s : state) (b : basket) : state := mkS b (s_bal s) (s_supply s) (s_hm s) (s_hb s) (s_hs s) (s_sibs s).
 
 Definition step (v : variant) (s : state) (o : op) : outcome state :=
@@ -418,7 +433,15 @@ Definition step (v : variant) (s : state) (o : op) : outcome state :=
       let p := b_period (s_bk s) in
       Ok (mkS (s_bk s) (s_bal s) (s_supply s) (clear_old (s_hm s) now p) (clear_old (s_hb s) now p) (clear_old (s_hs s) now p) (s_sibs s))
   | OUpsertHook se => Ok (if se && negb (v_upsert_skip v) then with_bk s shell else s)
-  | OWithdraw ids target => withdraw_ids s target ids
+  | OWithdraw ids target rewards =>
+      do s1 <- withdraw_ids s target ids;
+      (* ClaimRewardsFromModule: fee collector -> basket module, then basket module -> receiver: the
+         module account's balance is back where it was *)
+      if coins_valid rewards then
+        Ok (mkS (s_bk s1) (fold_left (fun b c => bal_add b target (fst c) (snd c)) rewards (s_bal s1)) (s_supply s1)
+                (s_hm s1) (s_hb s1) (s_hs s1) (s_sibs s1))
+      else Ok s1
+  | OGenesis => Ok (mkS (s_bk s) (s_bal s) (s_supply s) (genesis_hist (s_hm s)) (genesis_hist (s_hb s)) (genesis_hist (s_hs s)) (s_sibs s))
   | OCreate new => create v s new
   end.
 
